@@ -154,6 +154,38 @@ func runSelfAudit(rules []string, repo, knownPath string) map[string]interface{}
 	}
 }
 
+// runSeedReplay replays the stored seeded changes of the property through overlays (tools/seed_replay.py) and
+// summarises the outcome for the evidence file; like the self-audit it is evidence about the checker and never changes
+// the exit code of the check.
+func runSeedReplay(prop, repo, knownPath string) map[string]interface{} {
+	tmp, err := os.CreateTemp("", "grulecheck-seeds-*.json")
+	if err != nil {
+		return map[string]interface{}{"error": err.Error()}
+	}
+	tmp.Close()
+	defer os.Remove(tmp.Name())
+	script := filepath.Join(filepath.Dir(thoroughAuditDir), "tools", "seed_replay.py")
+	cmd := exec.Command("python3", script, "--property", prop, "--json", tmp.Name(), "--known", knownPath, "-j", "4")
+	cmd.Env = append(os.Environ(), "VERIF_REPO="+repo)
+	_, _ = cmd.CombinedOutput()
+	b, err := os.ReadFile(tmp.Name())
+	if err != nil || len(b) == 0 {
+		return map[string]interface{}{"error": "seed replay produced no result"}
+	}
+	var res struct {
+		Results []map[string]interface{} `json:"results"`
+		Tally   map[string]int           `json:"tally"`
+	}
+	if err := json.Unmarshal(b, &res); err != nil {
+		return map[string]interface{}{"error": err.Error()}
+	}
+	return map[string]interface{}{
+		"explanation": "the confirmed seeded changes stored under /verif/seeded for this property, each applied to scratch copies of the files it touches and analysed through an overlay with the property's own rules: `reported` = the check would exit 1 on that change, `skipped` = the patch no longer applies to the current tree (a later repair changed the same lines) or is behaviour-preserving there",
+		"tally":       res.Tally,
+		"results":     res.Results,
+	}
+}
+
 func run(prop, tier, repo, evDir, knownPath, overlayF, rulesF string, listObl bool, goos, goarch, jsonOut string, start time.Time, onlyKey string) int {
 	var overlay map[string][]byte
 	if overlayF != "" {
@@ -268,6 +300,7 @@ func run(prop, tier, repo, evDir, knownPath, overlayF, rulesF string, listObl bo
 	var matrix []map[string]interface{}
 	var audit map[string]interface{}
 	matrixViolations := 0
+	var seedReplay map[string]interface{}
 	if tier == "thorough" && goos == "" && goarch == "" && overlayF == "" && onlyKey == "" {
 		var mv []string
 		matrix, mv = runMatrix(prop, abs, knownPath)
@@ -283,6 +316,7 @@ func run(prop, tier, repo, evDir, knownPath, overlayF, rulesF string, listObl bo
 		matrixViolations = len(mv)
 		if thoroughAuditDir != "" {
 			audit = runSelfAudit(rules, abs, knownPath)
+			seedReplay = runSeedReplay(prop, abs, knownPath)
 		}
 	}
 	wall := time.Since(start).Seconds()
@@ -293,6 +327,9 @@ func run(prop, tier, repo, evDir, knownPath, overlayF, rulesF string, listObl bo
 		}
 		if audit != nil {
 			ev.Coverage["self_audit"] = audit
+		}
+		if seedReplay != nil {
+			ev.Coverage["seeded_changes"] = seedReplay
 		}
 		ev.Violations += matrixViolations
 		if err := writeJSON(filepath.Join(evDir, prop+".json"), ev); err != nil {
